@@ -1991,8 +1991,28 @@ package mcp
 //@ type Server
 //@   private[C05,C01] requestID writers ListRoots, SendRequest
 //@
+//@ func NewServer
+//@   ensures[C05,C01 server-issued-request-ids-start-at-zero] ret != nil && ret.requestID == 0
+//@
 // C07 — the hand-written decoders of mcp_types.go are under the same safety sweep as the other client-side decoders
 //@ sweepscope[C07,C06] kinds=typeassert,nilmap,index,nilresult files=mcp_types.go
+//@
+// C14 — what the shared managers answer does not depend on per-session data (transports store different things
+// there, and some have no session at all)
+//@ sweepscope[C14] kinds=nosessiondata files=manager_tools.go,manager_prompt.go,manager_resource.go,handler.go
+//@
+// C07 — on the listening stream a blank line hands the pending event to the dispatcher, whatever else the stream
+// carried before (an event is never dropped because of an earlier line)
+//@ ghost getevents int
+//@ func streamableHTTPClientTransport.processSSEEvent
+//@   counted getevents
+//@ ghost legacyevents int
+//@ func sseClientTransport.handleEvent
+//@   counted legacyevents
+//@ func sseClientTransport.readSSE
+//@   loop 1 step[C07 a-blank-line-hands-the-pending-event-to-the-dispatcher] athead(eventType) != "" && athead(eventData) != "" && strings.TrimRight(lastline, "\r\n") == "" ==> legacyevents == athead(legacyevents) + 1
+//@ func streamableHTTPClientTransport.handleGetSSEEvents
+//@   loop 1 step[C07 a-blank-line-hands-the-pending-event-to-the-dispatcher] athead(eventData) != "" && scanline(athead(rdprog) + 1) == "" ==> getevents == athead(getevents) + 1
 //@
 // C09 — the stdio client's frames go out through its encoder only (one Encode per message)
 //@ sweepscope[C09] kinds=framedoutput files=transport_stdio.go,stdio_client.go
